@@ -73,6 +73,7 @@ def run(tier, replay=None):
         progs = progen.corpus(seed(), n, classes=["flow", "calls", "mixed", "stack", "crypto"], nstmts=14 if thorough else 10)
         progs += progen.depth_sweep(depths=(0, 17, 24) if thorough else (17,), rng_seed=seed())
         progs += span_programs(seed(), 200 if thorough else 40)
+        progs += vmtrace.callee_shape_programs() + vmtrace.fri_programs()
         cov = cover_programs(wd, thorough, ck)
         ck.extra["covering_span_programs"] = len(cov)
         progs += cov
